@@ -13,7 +13,7 @@ META = {
              'kind, sorted (dtype+order, layout, cast), window?, outcome); non-trivial when a buffer is a view, '
              'read-only, big-endian, cast, or the write failed'),
     'required_obs': {'quick': ['digest-compared', 'src-inline', 'src-dict', 'src-struct', 'src-hdf5', 'big-endian',
-                               'cast', 'view', 'readonly', 'failed-write', 'h5-open-audited', 'readonly-differential', 'native-zero-copy', 'dict-plus-inline']},
+                               'cast', 'view', 'readonly', 'failed-write', 'h5-open-audited', 'readonly-differential', 'native-zero-copy', 'dict-plus-inline', 'hc-write-ok']},
     'assumptions': ['sys.addaudithook sees Python-level open(); h5py opens are observed through the h5py.File mode '
                     'argument recorded by a wrapper on h5py.File.__init__ and, in the thorough tier, through strace'],
 }
@@ -69,6 +69,16 @@ def run_case(case):
         sp['write']['extra'] = 0
         sp['write']['perm_seed'] = None
         bump('native-zero-copy')
+        if r.random() < 0.4:
+            # the same, written inside the high-compatibility context (no signed integers there), special values
+            # (NaN payloads, infinities, signed zeros) in the data
+            sp = gen.frame_spec(r, casts=False, window=r.random() < 0.3, nframes=1, orders='<=', layouts=('C', 'C', 'view'),
+                                sources=('struct', 'struct', 'dict', 'inline', 'hdf5'), nch=r.choice([2, 3]),
+                                dtypes=('float32', 'float64', 'uint8', 'uint16', 'uint32'), fills=('special', 'special', 'pos'))
+            sp['write']['extra'] = 0
+            sp['write']['perm_seed'] = None
+            sp['write']['hc'] = True
+            bump('written-in-hc-mode')
     else:
         sp = gen.frame_spec(r, casts=r.random() < 0.4, window=r.random() < 0.4, nframes=r.choice([1, 1, 2]),
                             mixed_inline=r.random() < 0.5)
@@ -151,6 +161,8 @@ def run_case(case):
     wout, out, problems = one(sp)
     bump('digest-compared')
     bump('src-' + src)
+    if wout[0] == 'ok' and sp['write'].get('hc'):
+        bump('hc-write-ok')
     if wout[0] != 'ok':
         bump('failed-write')
         bump('failed:%s:%s' % (wout[1], wout[2][:40]))
